@@ -482,3 +482,467 @@ Proof.
   - rewrite (priv_crypto_needs_slot C _ _ Hm Hs); reflexivity.
   - unfold priv_pem. rewrite (priv_crypto_needs_slot C _ _ Hm Hs); reflexivity.
 Qed.
+
+(** * Round trip *)
+
+Inductive encoding := EncTTLV | EncXML | EncJSON.
+
+(** What is assumed of Go's crypto packages on well-formed keys (the validity predicates are
+    abstract: "a key x509 accepts"). *)
+Record crypto_laws (C : crypto) (vrsa : rsa_priv -> Prop) (vrsapub : rsa_pub -> Prop)
+                   (vec : ec_priv -> Prop) (vecpub : ec_pub -> Prop) : Prop := {
+  law_pkcs1_priv : forall k, vrsa k ->
+    parse_pkcs1_priv C (marshal_pkcs1_priv C k) = Some (precompute C k);
+  law_pkcs8_rsa : forall k, vrsa k ->
+    exists b, marshal_pkcs8 C (PrivRsa k) = Ok b /\ parse_pkcs8 C b = Some (PrivRsa (precompute C k));
+  law_pkcs1_pub : forall k, vrsapub k ->
+    parse_pkcs1_pub C (marshal_pkcs1_pub C k) = Some k;
+  law_pkix_rsa : forall k, vrsapub k ->
+    exists b, marshal_pkix C (PubRsa k) = Some b /\ parse_pkix C b = Some (PubRsa k);
+  law_sec1 : forall k, vec k ->
+    exists b, marshal_sec1 C k = Some b /\ parse_sec1 C b = Some k;
+  law_pkcs8_ec : forall k, vec k ->
+    exists b, marshal_pkcs8 C (PrivEc k) = Ok b /\ parse_pkcs8 C b = Some (PrivEc k);
+  law_pkix_ec : forall k, vecpub k ->
+    exists b, marshal_pkix C (PubEc k) = Some b /\ parse_pkix C b = Some (PubEc k);
+  law_point : forall k, vecpub k ->
+    exists q, ec_marshal C (ep_curve k) (ep_x k) (ep_y k) = Some q
+              /\ ec_unmarshal C (ep_curve k) q = Some (ep_x k, ep_y k);
+  law_scalar : forall k, vec k ->
+    0 < ek_d k < curve_order C (ek_curve k)
+    /\ scalar_base_mult C (ek_curve k) (ek_d k) = (ek_x k, ek_y k);
+  law_pre_keep : forall k, rk_dp k <> None -> rk_dq k <> None -> rk_qinv k <> None -> precompute C k = k;
+  law_pre_core : forall k, rsa_core (precompute C k) = rsa_core k
+}.
+
+Section Roundtrip.
+Variable C : crypto.
+Variables (vrsa : rsa_priv -> Prop) (vrsapub : rsa_pub -> Prop) (vec : ec_priv -> Prop) (vecpub : ec_pub -> Prop).
+Hypothesis L : crypto_laws C vrsa vrsapub vec vecpub.
+
+(** The keys the property quantifies over. *)
+Definition input_ok (i : reg_input) : Prop :=
+  match i with
+  | RegRsaPriv k =>
+      vrsa k /\ (exists p q, rk_primes k = [Some p; Some q]) /\ in_i64 (rk_e k) = true /\ bitlen (rk_n k) <= max_i32
+  | RegRsaPub k => vrsapub k /\ in_i64 (rp_e k) = true /\ bitlen (rp_n k) <= max_i32
+  | RegEcPriv k => vec k /\ ek_curve k <> OtherCurve
+  | RegEcPub k => vecpub k /\ ep_curve k <> OtherCurve
+  | RegSym _ v => len v * 8 <= max_i32
+  | RegSecret _ _ => True
+  end.
+
+(** What extraction returns: the key itself; for an RSA private key, after rsa.Precompute
+    (which leaves N, E, D and the primes alone, and a key that already carries its CRT values
+    entirely unchanged). *)
+Definition normalize (i : reg_input) : reg_input :=
+  match i with
+  | RegRsaPriv k => RegRsaPriv (precompute C k)
+  | _ => i
+  end.
+
+Lemma bitlen_check : forall n, bitlen n <= max_i32 -> (bitlen n <? 0) || (bitlen n >? max_i32) = false.
+Proof.
+  intros n H. pose proof (bitlen_nonneg n). apply orb_false_iff. split; [apply Z.ltb_ge; lia|].
+  rewrite Z.gtb_ltb. apply Z.ltb_ge. lia.
+Qed.
+
+Lemma curve_roundtrip : forall c bl crv,
+  curve_to_kmip c = Some (bl, crv) -> curve_of_kmip crv = Some c.
+Proof. intros c bl crv H. destruct c; cbn in H; try discriminate; injection H as <- <-; reflexivity. Qed.
+
+Lemma curve_supported : forall c, c <> OtherCurve -> exists bl crv, curve_to_kmip c = Some (bl, crv).
+Proof. intros c H. destruct c; try congruence; cbn; eauto. Qed.
+
+Lemma rsa_priv_rebuild : forall k p q,
+  rk_primes k = [Some p; Some q] ->
+  mk_rsa_priv (rk_n k) (rk_e k) (rk_d k) [Some p; Some q] (rk_dp k) (rk_dq k) (rk_qinv k) = k.
+Proof. intros k p q H. destruct k; cbn in *. subst. reflexivity. Qed.
+
+(** Each builder followed by the typed accessor, on the built object itself. *)
+
+Lemma rt_rsa_priv : forall kf usage k,
+  input_ok (RegRsaPriv k) ->
+  exists r, reg_rsa_priv C kf usage k = Ok r
+    /\ pl_rsa_private_key C (get_of (rq_obj r)) = Ok (precompute C k)
+    /\ pl_private_key C (get_of (rq_obj r)) = Ok (PrivRsa (precompute C k)).
+Proof.
+  intros kf usage k [Hv [[p [q Hp]] [He Hb]]].
+  unfold reg_rsa_priv. rewrite (bitlen_check _ Hb).
+  destruct (rsa_priv_format_cases kf) as [F|[F|F]]; rewrite F.
+  - change (KF_PKCS1 =? KF_PKCS1) with true. cbv iota. eexists. split; [reflexivity|].
+    unfold pl_rsa_private_key, pl_private_key, priv_crypto, priv_rsa, get_bytes; cbn.
+    rewrite (law_pkcs1_priv _ _ _ _ _ L _ Hv). split; reflexivity.
+  - change (KF_PKCS8 =? KF_PKCS1) with false. change (KF_PKCS8 =? KF_PKCS8) with true. cbv iota.
+    destruct (law_pkcs8_rsa _ _ _ _ _ L _ Hv) as [b [M P]]. rewrite M. cbn [bind]. eexists. split; [reflexivity|].
+    unfold pl_rsa_private_key, pl_private_key, priv_crypto, priv_rsa, get_bytes; cbn.
+    rewrite P. split; reflexivity.
+  - change (KF_Transparent =? KF_PKCS1) with false. change (KF_Transparent =? KF_PKCS8) with false.
+    change (KF_Transparent =? KF_Transparent) with true. cbv iota.
+    rewrite Hp. cbn [index nth_error bind]. eexists. split; [reflexivity|].
+    unfold pl_rsa_private_key, pl_private_key, priv_crypto, priv_rsa; cbn.
+    rewrite He. cbn. rewrite (rsa_priv_rebuild _ _ _ Hp). split; reflexivity.
+Qed.
+
+Lemma rt_rsa_pub : forall kf usage k,
+  input_ok (RegRsaPub k) ->
+  exists r, reg_rsa_pub C kf usage k = Ok r
+    /\ pl_rsa_public_key C (get_of (rq_obj r)) = Ok k
+    /\ pl_public_key C (get_of (rq_obj r)) = Ok (PubRsa k).
+Proof.
+  intros kf usage k [Hv [He Hb]].
+  unfold reg_rsa_pub. rewrite (bitlen_check _ Hb).
+  destruct (rsa_pub_format_cases kf) as [F|[F|F]]; rewrite F.
+  - change (KF_PKCS1 =? KF_PKCS1) with true. cbv iota. eexists. split; [reflexivity|].
+    unfold pl_rsa_public_key, pl_public_key, pub_crypto, pub_rsa, get_bytes; cbn.
+    rewrite (law_pkcs1_pub _ _ _ _ _ L _ Hv). split; reflexivity.
+  - change (KF_X509 =? KF_PKCS1) with false. change (KF_X509 =? KF_X509) with true. cbv iota.
+    destruct (law_pkix_rsa _ _ _ _ _ L _ Hv) as [b [M P]]. rewrite M. eexists. split; [reflexivity|].
+    unfold pl_rsa_public_key, pl_public_key, pub_crypto, pub_rsa, get_bytes; cbn.
+    rewrite P. split; reflexivity.
+  - change (KF_Transparent =? KF_PKCS1) with false. change (KF_Transparent =? KF_X509) with false.
+    change (KF_Transparent =? KF_Transparent) with true. cbv iota. eexists. split; [reflexivity|].
+    unfold pl_rsa_public_key, pl_public_key, pub_crypto, pub_rsa; cbn.
+    rewrite He. destruct k; split; reflexivity.
+Qed.
+
+Lemma rt_ec_priv : forall kf ver usage k,
+  input_ok (RegEcPriv k) ->
+  exists r, reg_ec_priv C kf ver usage k = Ok r
+    /\ pl_ecdsa_private_key C (get_of (rq_obj r)) = Ok k
+    /\ pl_private_key C (get_of (rq_obj r)) = Ok (PrivEc k).
+Proof.
+  intros kf ver usage k [Hv Hc].
+  destruct (curve_supported _ Hc) as [bl [crv Hk]].
+  pose proof (curve_roundtrip _ _ _ Hk) as Hback.
+  unfold reg_ec_priv. rewrite Hk.
+  destruct (ecdsa_priv_format_cases kf) as [F|[F|F]]; rewrite F.
+  - change (KF_SEC1 =? KF_SEC1) with true. cbv iota.
+    destruct (law_sec1 _ _ _ _ _ L _ Hv) as [b [M P]]. rewrite M. eexists. split; [reflexivity|].
+    unfold pl_ecdsa_private_key, pl_private_key, priv_crypto, priv_ecdsa, get_bytes; cbn.
+    rewrite P. split; reflexivity.
+  - change (KF_PKCS8 =? KF_SEC1) with false. change (KF_PKCS8 =? KF_PKCS8) with true. cbv iota.
+    destruct (law_pkcs8_ec _ _ _ _ _ L _ Hv) as [b [M P]]. rewrite M. cbn [bind]. eexists. split; [reflexivity|].
+    unfold pl_ecdsa_private_key, pl_private_key, priv_crypto, priv_ecdsa, get_bytes; cbn.
+    rewrite P. split; reflexivity.
+  - change (KF_Transparent =? KF_SEC1) with false. change (KF_Transparent =? KF_PKCS8) with false.
+    change (KF_Transparent =? KF_Transparent) with true. cbv iota.
+    destruct (law_scalar _ _ _ _ _ L _ Hv) as [[D1 D2] S].
+    assert (G : (ek_d k <=? 0) || (curve_order C (ek_curve k) <=? ek_d k) = false).
+    { apply orb_false_iff. split; apply Z.leb_gt; lia. }
+    assert (A : Z.abs (ek_d k) = ek_d k) by lia.
+    destruct (ver_ge ver V1_3); (eexists; split; [reflexivity|]);
+      unfold pl_ecdsa_private_key, pl_private_key, priv_crypto, priv_ecdsa; cbn;
+      rewrite Hback, G, A, S; destruct k; split; reflexivity.
+Qed.
+
+Lemma rt_ec_pub : forall kf ver usage k,
+  input_ok (RegEcPub k) ->
+  exists r, reg_ec_pub C kf ver usage k = Ok r
+    /\ pl_ecdsa_public_key C (get_of (rq_obj r)) = Ok k
+    /\ pl_public_key C (get_of (rq_obj r)) = Ok (PubEc k).
+Proof.
+  intros kf ver usage k [Hv Hc].
+  destruct (curve_supported _ Hc) as [bl [crv Hk]].
+  pose proof (curve_roundtrip _ _ _ Hk) as Hback.
+  unfold reg_ec_pub. rewrite Hk.
+  destruct (ecdsa_pub_format_cases kf) as [F|F]; rewrite F.
+  - change (KF_X509 =? KF_X509) with true. cbv iota.
+    destruct (law_pkix_ec _ _ _ _ _ L _ Hv) as [b [M P]]. rewrite M. eexists. split; [reflexivity|].
+    unfold pl_ecdsa_public_key, pl_public_key, pub_crypto, pub_ecdsa, get_bytes; cbn.
+    rewrite P. split; reflexivity.
+  - change (KF_Transparent =? KF_X509) with false. change (KF_Transparent =? KF_Transparent) with true. cbv iota.
+    destruct (law_point _ _ _ _ _ L _ Hv) as [q [M U]]. rewrite M.
+    destruct (ver_ge ver V1_3); (eexists; split; [reflexivity|]);
+      unfold pl_ecdsa_public_key, pl_public_key, pub_crypto, pub_ecdsa, pub_ecdsa_transparent; cbn;
+      rewrite Hback; cbn; rewrite U; destruct k; split; reflexivity.
+Qed.
+
+Lemma rt_symmetric : forall kf alg usage v,
+  input_ok (RegSym alg v) ->
+  exists r, reg_symmetric kf alg usage v = Ok r /\ pl_symmetric_key (get_of (rq_obj r)) = Ok v.
+Proof.
+  intros kf alg usage v Hb. unfold input_ok in Hb. unfold reg_symmetric.
+  assert (G : (len v * 8 >? max_i32) = false) by (rewrite Z.gtb_ltb; apply Z.ltb_ge; lia).
+  rewrite G. destruct (symmetric_format_cases kf) as [F|F]; rewrite F.
+  - change (KF_RAW =? KF_RAW) with true. cbv iota. eexists. split; reflexivity.
+  - change (KF_Transparent =? KF_RAW) with false. change (KF_Transparent =? KF_Transparent) with true. cbv iota.
+    eexists. split; reflexivity.
+Qed.
+
+Lemma rt_secret : forall kind v,
+  exists r, reg_secret kind v = Ok r /\ pl_secret (get_of (rq_obj r)) = Ok v.
+Proof. intros. eexists. split; reflexivity. Qed.
+
+(** ** The wire, as a hypothesis (C01 / C04): an object whose KeyFormatType designates the
+    populated slot comes back unchanged, in every encoding and at every version. *)
+Variable transport : Z * Z -> encoding -> object -> res object.
+Hypothesis transport_stable : forall ver enc o, wire_stable o = true -> transport ver enc o = Ok o.
+
+Theorem key_roundtrip : forall kf ver enc usage i,
+  input_ok i ->
+  exists r o',
+    build C kf ver usage i = Ok r
+    /\ transport ver enc (rq_obj r) = Ok o'
+    /\ extract C i (get_of o') = Ok (normalize i).
+Proof.
+  intros kf ver enc usage i Hi.
+  assert (Hex : exists r, build C kf ver usage i = Ok r /\ extract C i (get_of (rq_obj r)) = Ok (normalize i)).
+  { destruct i as [k|k|k|k|alg v|kind v]; cbn [build extract normalize].
+    - destruct (rt_rsa_priv kf usage k Hi) as [r [B [E _]]]. exists r. rewrite B, E. split; reflexivity.
+    - destruct (rt_rsa_pub kf usage k Hi) as [r [B [E _]]]. exists r. rewrite B, E. split; reflexivity.
+    - destruct (rt_ec_priv kf ver usage k Hi) as [r [B [E _]]]. exists r. rewrite B, E. split; reflexivity.
+    - destruct (rt_ec_pub kf ver usage k Hi) as [r [B [E _]]]. exists r. rewrite B, E. split; reflexivity.
+    - destruct (rt_symmetric kf alg usage v Hi) as [r [B E]]. exists r. rewrite B, E. split; reflexivity.
+    - destruct (rt_secret kind v) as [r [B E]]. exists r. rewrite B, E. split; reflexivity. }
+  destruct Hex as [r [B E]]. exists r, (rq_obj r). split; [exact B|]. split; [|exact E].
+  apply transport_stable. eapply built_wire_stable; eauto.
+Qed.
+
+(** The generic accessors (PrivateKey(), PublicKey()) return the same key. *)
+Theorem key_roundtrip_generic : forall kf ver enc usage i,
+  input_ok i ->
+  exists r o',
+    build C kf ver usage i = Ok r
+    /\ transport ver enc (rq_obj r) = Ok o'
+    /\ match i with
+       | RegRsaPriv k => pl_private_key C (get_of o') = Ok (PrivRsa (precompute C k))
+       | RegEcPriv k => pl_private_key C (get_of o') = Ok (PrivEc k)
+       | RegRsaPub k => pl_public_key C (get_of o') = Ok (PubRsa k)
+       | RegEcPub k => pl_public_key C (get_of o') = Ok (PubEc k)
+       | _ => True
+       end.
+Proof.
+  intros kf ver enc usage i Hi.
+  assert (Hex : exists r, build C kf ver usage i = Ok r /\
+     match i with
+     | RegRsaPriv k => pl_private_key C (get_of (rq_obj r)) = Ok (PrivRsa (precompute C k))
+     | RegEcPriv k => pl_private_key C (get_of (rq_obj r)) = Ok (PrivEc k)
+     | RegRsaPub k => pl_public_key C (get_of (rq_obj r)) = Ok (PubRsa k)
+     | RegEcPub k => pl_public_key C (get_of (rq_obj r)) = Ok (PubEc k)
+     | _ => True
+     end).
+  { destruct i as [k|k|k|k|alg v|kind v]; cbn [build].
+    - destruct (rt_rsa_priv kf usage k Hi) as [r [B [_ E]]]. exists r. split; assumption.
+    - destruct (rt_rsa_pub kf usage k Hi) as [r [B [_ E]]]. exists r. split; assumption.
+    - destruct (rt_ec_priv kf ver usage k Hi) as [r [B [_ E]]]. exists r. split; assumption.
+    - destruct (rt_ec_pub kf ver usage k Hi) as [r [B [_ E]]]. exists r. split; assumption.
+    - destruct (rt_symmetric kf alg usage v Hi) as [r [B _]]. exists r. split; [assumption|exact I].
+    - destruct (rt_secret kind v) as [r [B _]]. exists r. split; [assumption|exact I]. }
+  destruct Hex as [r [B E]]. exists r, (rq_obj r). split; [exact B|]. split; [|exact E].
+  apply transport_stable. eapply built_wire_stable; eauto.
+Qed.
+
+(** "Mathematically equal": N, E, D and the primes of the extracted RSA private key are those of
+    the registered one; a registered key that carries its CRT values is returned exactly. *)
+Corollary rsa_private_core : forall k, rsa_core (precompute C k) = rsa_core k.
+Proof. exact (law_pre_core _ _ _ _ _ L). Qed.
+
+Corollary rsa_private_exact : forall k,
+  rk_dp k <> None -> rk_dq k <> None -> rk_qinv k <> None -> normalize (RegRsaPriv k) = RegRsaPriv k.
+Proof. intros k H1 H2 H3. cbn. rewrite (law_pre_keep _ _ _ _ _ L k H1 H2 H3). reflexivity. Qed.
+
+End Roundtrip.
+
+(** The PEM accessors are the generic accessor followed by the marshaller and pem.Encode. *)
+Lemma pem_private_factors : forall C g k b,
+  pl_private_key C g = Ok k -> marshal_pkcs8 C k = Ok b ->
+  pl_pem_private_key C g = Ok (pem_encode C str_PRIVATE_KEY b).
+Proof.
+  intros C g k b. unfold pl_private_key, pl_pem_private_key.
+  destruct (negb _); [discriminate|]. destruct (gr_obj g) as [[]|]; try discriminate.
+  intros H M. unfold priv_pem. rewrite H. cbn. rewrite M. reflexivity.
+Qed.
+
+Lemma pem_public_factors : forall C g k b,
+  pl_public_key C g = Ok k -> marshal_pkix C k = Some b ->
+  pl_pem_public_key C g = Ok (pem_encode C str_PUBLIC_KEY b).
+Proof.
+  intros C g k b. unfold pl_public_key, pl_pem_public_key.
+  destruct (negb _); [discriminate|]. destruct (gr_obj g) as [[]|]; try discriminate.
+  intros H M. unfold pub_pem. rewrite H. cbn. rewrite M. reflexivity.
+Qed.
+
+(** * Non-vacuity: a toy instance of [crypto] that satisfies every law *)
+
+Definition toy_oz (o : option Z) : list Z := match o with Some z => [1; z] | None => [0; 0] end.
+Definition toy_un (f z : Z) : option Z := if f =? 1 then Some z else None.
+
+Definition toy_rsa_enc (k : rsa_priv) : bytes :=
+  match rk_primes k with
+  | [Some p; Some q] => [rk_n k; rk_e k; rk_d k; p; q] ++ toy_oz (rk_dp k) ++ toy_oz (rk_dq k) ++ toy_oz (rk_qinv k)
+  | _ => []
+  end.
+Definition toy_rsa_dec (b : bytes) : option rsa_priv :=
+  match b with
+  | [n; e; d; p; q; f1; dp; f2; dq; f3; qi] =>
+      if ((f1 =? 0) || (f1 =? 1)) && ((f2 =? 0) || (f2 =? 1)) && ((f3 =? 0) || (f3 =? 1))
+      then Some (mk_rsa_priv n e d [Some p; Some q] (toy_un f1 dp) (toy_un f2 dq) (toy_un f3 qi))
+      else None
+  | _ => None
+  end.
+Definition toy_curve_code (c : gocurve) : Z :=
+  match c with P224 => 0 | P256 => 1 | P384 => 2 | P521 => 3 | OtherCurve => 4 end.
+Definition toy_curve_of (z : Z) : gocurve :=
+  if z =? 0 then P224 else if z =? 1 then P256 else if z =? 2 then P384 else if z =? 3 then P521 else OtherCurve.
+Definition toy_order : Z := 1000.
+Definition toy_ec_enc (k : ec_priv) : bytes := [toy_curve_code (ek_curve k); ek_d k; ek_x k; ek_y k].
+Definition toy_ec_dec (b : bytes) : option ec_priv :=
+  match b with
+  | [c; d; x; y] => if (0 <? d) && (d <? toy_order) then Some (mk_ec_priv (toy_curve_of c) d x y) else None
+  | _ => None
+  end.
+
+Definition toy : crypto :=
+  mk_crypto
+    toy_rsa_enc toy_rsa_dec
+    (fun k => [rp_n k; rp_e k])
+    (fun b => match b with [n; e] => Some (mk_rsa_pub n e) | _ => None end)
+    (fun k => match k with
+              | PrivRsa r => Ok (100 :: toy_rsa_enc r)
+              | PrivEc e => if (0 <? ek_d e) && (ek_d e <? toy_order) then Ok (101 :: toy_ec_enc e) else Panic
+              | PrivOther => Err
+              end)
+    (fun b => match b with
+              | t :: r => if t =? 100 then option_map PrivRsa (toy_rsa_dec r)
+                          else if t =? 101 then option_map PrivEc (toy_ec_dec r) else None
+              | [] => None
+              end)
+    (fun k => match k with
+              | PubRsa r => Some [200; rp_n r; rp_e r]
+              | PubEc e => Some [201; toy_curve_code (ep_curve e); ep_x e; ep_y e]
+              | PubOther => None
+              end)
+    (fun b => match b with
+              | [t; n; e] => if t =? 200 then Some (PubRsa (mk_rsa_pub n e)) else None
+              | [t; c; x; y] => if t =? 201 then Some (PubEc (mk_ec_pub (toy_curve_of c) x y)) else None
+              | _ => None
+              end)
+    (fun k => Some (toy_ec_enc k))
+    toy_ec_dec
+    (fun c x y => Some [4; x; y])
+    (fun c b => match b with [t; x; y] => if t =? 4 then Some (x, y) else None | _ => None end)
+    (fun c b => None)
+    (fun c d => (d, d + 1))
+    (fun c => toy_order)
+    (fun k => k)
+    (fun ty b => ty ++ 0 :: b)
+    (fun b => Some b).
+
+Definition toy_vrsa (k : rsa_priv) : Prop := exists p q, rk_primes k = [Some p; Some q].
+Definition toy_vec (k : ec_priv) : Prop :=
+  0 < ek_d k < toy_order /\ ek_x k = ek_d k /\ ek_y k = ek_d k + 1 /\ ek_curve k <> OtherCurve.
+Definition toy_vecpub (k : ec_pub) : Prop := ep_curve k <> OtherCurve.
+
+Lemma toy_un_oz : forall o, match toy_oz o with [f; z] => toy_un f z = o /\ ((f =? 0) || (f =? 1)) = true | _ => False end.
+Proof. destruct o; cbn; auto. Qed.
+
+Lemma toy_rsa_roundtrip : forall k, toy_vrsa k -> toy_rsa_dec (toy_rsa_enc k) = Some k.
+Proof.
+  intros k [p [q H]]. unfold toy_rsa_enc. rewrite H. destruct k as [n e d pr dp dq qi]. cbn in *. subst pr.
+  destruct dp, dq, qi; reflexivity.
+Qed.
+
+Lemma toy_curve_roundtrip : forall c, toy_curve_of (toy_curve_code c) = c.
+Proof. destruct c; reflexivity. Qed.
+
+Lemma toy_ec_roundtrip : forall k, 0 < ek_d k < toy_order -> toy_ec_dec (toy_ec_enc k) = Some k.
+Proof.
+  intros k H. unfold toy_ec_enc, toy_ec_dec.
+  assert (G : (0 <? ek_d k) && (ek_d k <? toy_order) = true) by (apply andb_true_iff; split; apply Z.ltb_lt; lia).
+  rewrite G, toy_curve_roundtrip. destruct k; reflexivity.
+Qed.
+
+Lemma toy_laws : crypto_laws toy toy_vrsa (fun _ => True) toy_vec toy_vecpub.
+Proof.
+  constructor.
+  - intros k H. exact (toy_rsa_roundtrip k H).
+  - intros k H. eexists. split; [reflexivity|]. cbn. rewrite (toy_rsa_roundtrip k H). reflexivity.
+  - intros k _. destruct k; reflexivity.
+  - intros k _. eexists. split; [reflexivity|]. destruct k; reflexivity.
+  - intros k [H _]. eexists. split; [reflexivity|]. exact (toy_ec_roundtrip k H).
+  - intros k [H _].
+    change (marshal_pkcs8 toy (PrivEc k)) with
+      (if (0 <? ek_d k) && (ek_d k <? toy_order) then Ok (101 :: toy_ec_enc k) else @Panic bytes).
+    assert (G : (0 <? ek_d k) && (ek_d k <? toy_order) = true) by (apply andb_true_iff; split; apply Z.ltb_lt; lia).
+    rewrite G. eexists. split; [reflexivity|].
+    change (parse_pkcs8 toy (101 :: toy_ec_enc k)) with (option_map PrivEc (toy_ec_dec (toy_ec_enc k))).
+    rewrite (toy_ec_roundtrip k H). reflexivity.
+  - intros k _. eexists. split; [reflexivity|]. cbn. rewrite toy_curve_roundtrip. destruct k; reflexivity.
+  - intros k _. eexists. split; reflexivity.
+  - intros k [H [Hx [Hy _]]]. split; [exact H|]. cbn. rewrite Hx, Hy. reflexivity.
+  - intros; reflexivity.
+  - intros; reflexivity.
+Qed.
+
+Lemma toy_ec_dec_in_range : forall b k, toy_ec_dec b = Some k -> 0 < ek_d k < toy_order.
+Proof.
+  intros b k. unfold toy_ec_dec. destruct b as [|c [|d [|x [|y [|? ?]]]]]; try discriminate.
+  destruct ((0 <? d) && (d <? toy_order)) eqn:G; [|discriminate]. intros H. injection H as <-. cbn.
+  apply andb_true_iff in G. destruct G as [G1 G2]. apply Z.ltb_lt in G1, G2. lia.
+Qed.
+
+Lemma toy_safe : crypto_safe toy.
+Proof.
+  constructor.
+  - intros; discriminate.
+  - discriminate.
+  - intros k H. cbn in *.
+    assert (G : (0 <? ek_d k) && (ek_d k <? toy_order) = true) by (apply andb_true_iff; split; apply Z.ltb_lt; lia).
+    rewrite G. discriminate.
+  - intros b k. cbn. destruct b as [|t r]; [discriminate|].
+    destruct (t =? 100). { destruct (toy_rsa_dec r); discriminate. }
+    destruct (t =? 101); [|discriminate].
+    destruct (toy_ec_dec r) as [k'|] eqn:E; [|discriminate]. intros H. injection H as <-.
+    exact (toy_ec_dec_in_range _ _ E).
+  - intros b k H. exact (toy_ec_dec_in_range _ _ H).
+Qed.
+
+Definition toy_rsa_key : rsa_priv := mk_rsa_priv 3233 17 2753 [Some 61; Some 53] (Some 53) (Some 49) (Some 38).
+Definition toy_ec_key : ec_priv := mk_ec_priv P384 123 123 124.
+
+Lemma toy_inputs_ok :
+  input_ok toy_vrsa (fun _ => True) toy_vec toy_vecpub (RegRsaPriv toy_rsa_key)
+  /\ input_ok toy_vrsa (fun _ => True) toy_vec toy_vecpub (RegRsaPub (mk_rsa_pub 3233 17))
+  /\ input_ok toy_vrsa (fun _ => True) toy_vec toy_vecpub (RegEcPriv toy_ec_key)
+  /\ input_ok toy_vrsa (fun _ => True) toy_vec toy_vecpub (RegEcPub (mk_ec_pub P521 5 6))
+  /\ input_ok toy_vrsa (fun _ => True) toy_vec toy_vecpub (RegSym 3 [1; 2; 3])
+  /\ input_ok toy_vrsa (fun _ => True) toy_vec toy_vecpub (RegSecret 1 [4; 5]).
+Proof.
+  repeat split; try (cbn; discriminate); try reflexivity; try (cbn; lia).
+  - exists 61, 53. reflexivity.
+  - exists 61, 53. reflexivity.
+Qed.
+
+Lemma toy_roundtrip_computes :
+  (do r <- build toy KF_Transparent (1, 4) 12 (RegRsaPriv toy_rsa_key) ;; extract toy (RegRsaPriv toy_rsa_key) (get_of (rq_obj r)))
+    = Ok (RegRsaPriv toy_rsa_key)
+  /\ (do r <- build toy KF_Transparent (1, 2) 1 (RegEcPriv toy_ec_key) ;; extract toy (RegEcPriv toy_ec_key) (get_of (rq_obj r)))
+    = Ok (RegEcPriv toy_ec_key)
+  /\ (do r <- build toy KF_PKCS8 (1, 2) 1 (RegEcPriv toy_ec_key) ;; extract toy (RegEcPriv toy_ec_key) (get_of (rq_obj r)))
+    = Ok (RegEcPriv toy_ec_key).
+Proof. repeat split; vm_compute; reflexivity. Qed.
+
+(** * The defects of the pinned tree, for the record: the accessors as they were before the
+    [fix:] commits panic on decodable objects. *)
+
+(** KeyBlock.GetMaterial as of the pinned tree: [kb.KeyValue.Plain] without a nil check *)
+Definition get_material_pinned (kb : key_block) : res key_material :=
+  match kb_value kb with
+  | None => Panic
+  | Some kv => match kv_plain kv with None => Err | Some p => Ok (pk_material p) end
+  end.
+(** the transparent branch of PublicKey.ECDSA as of the pinned tree: [tkey.RecommendedCurve]
+    without a nil check *)
+Definition pub_ecdsa_transparent_pinned (tkey : option (Z * bytes)) : res unit :=
+  match tkey with None => Panic | Some _ => Ok tt end.
+
+Lemma pinned_get_material_refuted :
+  decodable_kb (mk_kb KFT_Raw 0 None 0 0 false) = true
+  /\ get_material_pinned (mk_kb KFT_Raw 0 None 0 0 false) = Panic.
+Proof. split; reflexivity. Qed.
+
+Lemma pinned_pub_ecdsa_refuted :
+  let kb := mk_kb KFT_TECPublicKey 0 (Some (mk_kv None (Some (mk_pkv km_empty [])))) 0 0 false in
+  decodable_kb kb = true /\ pub_ecdsa_transparent_pinned (km_ec_pub km_empty) = Panic.
+Proof. split; reflexivity. Qed.
